@@ -219,9 +219,10 @@ def body_parsed(env, shape=(2, 3)):
     env.same(got, want, 'values: ' + tag)
 
 
-def body_removal(env, n_derived=3, on_hub=True, share=None, action=None):
-    """all dependency DAGs of n_derived derived attributes over two stored ones: removing an attribute removes exactly
-    its transitive dependants, survivors keep order and values; update_id keeps values and order"""
+def body_removal(env, n_derived=3, on_hub=True, share=None, action=None, preludes=(0, 1, 2)):
+    """all dependency DAGs of n_derived derived attributes over two stored ones (optionally stored out of dependency
+    order: after reorder_components or after redefining a derived attribute in place): removing an attribute removes
+    exactly its transitive dependants, survivors keep order and values; update_id keeps values and order"""
     from glue.core import DataCollection
     from glue.core.component_id import ComponentID
     from glue.core.hub import HubListener
@@ -240,8 +241,7 @@ def body_removal(env, n_derived=3, on_hub=True, share=None, action=None):
         lis = L()
         dc.hub.subscribe(lis, msg.DataRemoveComponentMessage, handler=lambda m: log.append(m.component_id))
     names = ['x', 'y']
-    vals = {'x': x, 'y': y}
-    deps = {'x': set(), 'y': set()}
+    expr = {}                                    # name -> (kind, a, b): the defining expression
     share = env.choice('shared_left_operand', 2) if share is None else share
     shared_link = d.id['x'] + 1                  # a link *object* that may serve as left operand of several attributes
     for k in range(n_derived):
@@ -251,15 +251,58 @@ def body_removal(env, n_derived=3, on_hub=True, share=None, action=None):
         a, b = names[i], names[j]
         if share and k < 2:
             link = shared_link * d.id[b]
-            vals[nm] = (x + 1) * vals[b]
-            deps[nm] = {'x', b} | deps[b]
+            expr[nm] = ('shared', 'x', b)
         else:
             link = d.id[a] - d.id[b] * 2
-            vals[nm] = vals[a] - vals[b] * 2
-            deps[nm] = {a, b} | deps[a] | deps[b]
+            expr[nm] = ('sub', a, b)
         d.add_component_link(link, nm)
         names.append(nm)
+
+    def deps_of(n, seen=()):
+        if n not in expr:
+            return set()
+        out = set()
+        for m in expr[n][1:]:
+            if m is not None:
+                out |= {m} | deps_of(m)
+        return out
+
+    # --- optionally bring the stored order out of dependency order
+    prelude = preludes[env.choice('prelude', len(preludes))]
+    last = 'd%d' % (n_derived - 1)
+    if prelude == 1:
+        comps = list(d.components)
+        der = [c for c in comps if c.label in expr]
+        rest = [c for c in comps if c.label not in expr]
+        d.reorder_components(rest + der[::-1])
+    elif prelude == 2:
+        # redefine d0 in place (same identifier, same position) so that it depends on the last derived attribute
+        if n_derived < 2 or 'd0' in deps_of(last):
+            env.assume(False)
+        d.add_component(d.id[last] + 1, d.id['d0'])
+        expr['d0'] = ('inc', last, None)
+    if on_hub:
+        del log[:]
+
+    def value(n):
+        if n == 'x':
+            return x
+        if n == 'y':
+            return y
+        kind, a, b = expr[n]
+        if kind == 'shared':
+            return (x + 1) * value(b)
+        if kind == 'sub':
+            return value(a) - value(b) * 2
+        return value(a) + 1
+    vals = {n: value(n) for n in names}
+    deps = {n: deps_of(n) for n in names}
     before = [c.label for c in d.components if c.label in names]
+    if prelude == 0:
+        env.true(before == names, 'attributes are listed in the order they were added')
+    if prelude:
+        for n in names[2:]:
+            env.same(d[n], vals[n], 'attribute %s computes its defining expression (prelude %d)' % (n, prelude))
     action = env.choice('action', 2) if action is None else action
     victim = names[env.choice('victim', len(names))]
     if action == 0:
@@ -267,10 +310,11 @@ def body_removal(env, n_derived=3, on_hub=True, share=None, action=None):
         gone = {victim} | {n for n in names if victim in deps[n]}
         after = [c.label for c in d.components if c.label in names]
         env.true(after == [n for n in before if n not in gone],
-                 'after removing %s the remaining attributes are exactly the non-dependants, in the old order: %s vs %s'
-                 % (victim, after, [n for n in before if n not in gone]))
+                 'after removing %s (prelude %d) the remaining attributes are exactly the non-dependants, in the old order: %s vs %s'
+                 % (victim, prelude, after, [n for n in before if n not in gone]))
         for n in after:
-            env.same(d[n], vals[n], 'survivor %s keeps its values after removing %s' % (n, victim))
+            if not (gone & deps[n]):
+                env.same(d[n], vals[n], 'survivor %s keeps its values after removing %s' % (n, victim))
         if on_hub:
             env.true(sorted(c.label for c in log) == sorted(gone), 'every removed attribute announced exactly once: %s vs %s'
                      % (sorted(c.label for c in log), sorted(gone)))
@@ -320,10 +364,14 @@ def harnesses(tier):
         hs.append(Harness('parsed %s' % (shape,), body_parsed, params=dict(shape=shape), validate=20,
                           bounds=dict(shape=shape, commands=[c for c, _ in PARSED])))
         for sh in (0, 1):
-            for ac in (0, 1):
-                hs.append(Harness('removal n=3 shared=%d %s' % (sh, ['remove', 'update_id'][ac]), body_removal,
-                                  params=dict(n_derived=3, share=sh, action=ac), validate=20, weight=4,
-                                  bounds=dict(stored=2, derived=3, action=['remove', 'update_id'][ac], shared_left_operand=bool(sh))))
+            for pre in (0, 1, 2):
+                hs.append(Harness('removal n=3 shared=%d remove prelude=%d' % (sh, pre), body_removal,
+                                  params=dict(n_derived=3, share=sh, action=0, preludes=(pre,)), validate=20, weight=4,
+                                  bounds=dict(stored=2, derived=3, action='remove', shared_left_operand=bool(sh),
+                                              prelude=['none', 'derived attributes reordered', 'd0 redefined in place'][pre])))
+            hs.append(Harness('removal n=3 shared=%d update_id' % sh, body_removal,
+                              params=dict(n_derived=3, share=sh, action=1, preludes=(0,)), validate=20, weight=4,
+                              bounds=dict(stored=2, derived=3, action='update_id', shared_left_operand=bool(sh))))
     else:
         for shape in [(2, 3), (4,), (2, 2, 2)]:
             nsplit = 11
